@@ -124,7 +124,15 @@ def merge_idiom_obs(ctx, fams, rule: str) -> List[Ob]:
         if f is None:
             continue
         for k in (f.py, f.pyx, f.single):
-            if k is None or not e.has_merge_loop(k):
+            if k is None:
+                continue
+            if not e.has_merge_loop(k):
+                if not any(k2 is not None and e.has_merge_loop(k2) for k2 in (f.py, f.pyx, f.single)):
+                    continue            # a family of per-spike scans: no merge loop in any copy
+                from .report import inconclusive
+                out.append(inconclusive(rule, f"{k.name} ({k.path}): the merge loop over both cursors is found", k.loc(),
+                                        'no loop of the shape `while c1 + c2 < ...` with a three-way branch',
+                                        construct=f"{k.path}::{k.name}::merge-loop"))
                 continue
             roles, obs = e.roles_of(k)
             for o in obs:
@@ -912,6 +920,10 @@ def _mirror_kernels(ctx, rule='R08.2') -> List[Ob]:
                     and isinstance(it_[1].targets[0], _ast_mod.Name) and it_[1].value.id in params[:2]:
                 lens_.append(C.atom(('call', 'len', (C.atom(('n', it_[1].value.id)),))))
         aux = _const_cells_over_paths(pro, _returned_names(k), [C.mk_cmp('gt', L_, C.ONE) for L_ in lens_])
+        from .rules_kernelspec import scalar_aux_pairs
+        for pr_, vals_ in scalar_aux_pairs(k, pro, [C.mk_cmp('gt', L_, C.ONE) for L_ in lens_]).items():
+            # the same pair kept in two scalars
+            aux[f"{pr_[0]} / {pr_[1]}"] = {0: vals_[pr_[0]], 1: vals_[pr_[1]]}
         arrays = {}
         for key, cells in aux.items():
             for v in cells.values():
@@ -1130,3 +1142,109 @@ for _pid, (_rid, _pred, _what) in _EXACT.items():
     PROPS[_pid]['explanation'] += (f" {_rid} exact decisions: in the code that {_what} depends on (scope functions and everything reachable from "
                                    "them by name) no tolerant comparison - np.isclose, np.allclose, math.isclose, |a-b| against a small constant - "
                                    "decides anything; only almost_equal compares up to a tolerance.")
+
+
+# ---------------------------------------------------------------------------------------------
+# dependency chains: the code between a property's public entry points and the kernels it is decided on
+# ---------------------------------------------------------------------------------------------
+# A property that is stated for "the bivariate profile" or "the distance" is observed through the public functions, and
+# those reach the kernels through shared plumbing: the generic multi-train drivers (also for a two-element list or a
+# list with `indices` naming two trains), keyword forwarding, the representation of empty trains, the averaging methods
+# of the function classes.  A defect there breaks the property although no kernel changed.  The obligations of that
+# plumbing are therefore carried into every property whose entry points reach it (the same rule functions, restricted to
+# the functions reachable from the entry modules, re-labelled with a rule id of the carrying property).
+def _reached_fns(ctx, modules) -> Set[str]:
+    import ast as _ast
+
+    def build(c):
+        from .wrappers import wrapper_model, _fn as _wfn
+        wm = wrapper_model(c)
+        seen: Dict[str, object] = {}
+        work = [f for f in wm.funcs if f.module in modules]
+        while work:
+            f = work.pop()
+            if f.qual in seen:
+                continue
+            seen[f.qual] = f
+            for n in _ast.walk(f.node):
+                if not isinstance(n, _ast.Call):
+                    continue
+                for t, _k in wm.callees(f, n):
+                    work.append(t)
+                for a in list(n.args) + [k.value for k in n.keywords]:
+                    if isinstance(a, _ast.Call) and a.args and isinstance(a.func, (_ast.Name, _ast.Attribute)) \
+                            and _ast.unparse(a.func).split('.')[-1] == 'partial':
+                        a = a.args[0]
+                    if isinstance(a, _ast.Name):
+                        if a.id in wm.partials.get(f.qual, {}):
+                            work.append(wm.partials[f.qual][a.id][0])
+                        else:
+                            r = wm.repo.resolve_symbol(f.module, a.id)
+                            if r is not None:
+                                work.append(r)
+        return {_wfn(f) for f in seen.values()}
+    return ctx.get(('reached-fns', tuple(sorted(modules))), build)
+
+
+def _of_fns(obs: List[Ob], fns: Set[str], rule: str) -> List[Ob]:
+    out = []
+    for o in obs:
+        ks = [k for k in (o.key, o.construct) if k]
+        if any(k == fn or k.startswith(fn + '::') or k.startswith(fn + '.') for k in ks for fn in fns):
+            out.append(Ob(rule, o.title, o.status, o.where, o.detail, o.key, o.construct, o.extra))
+    return out
+
+
+def _plumbing(ctx, modules, rule: str) -> List[Ob]:
+    """pair enumeration / aggregation, index kinds and keyword flow of the wrappers and generic drivers reached from
+    `modules` (R06.1-R06.3, R14.2, R14.5 restricted to those functions)"""
+    from .rules_wrappers import r14_5_keyword_flow
+    fns = _reached_fns(ctx, set(modules))
+    agg = ctx.get('chain-agg', lambda c: RM.r06_aggregation(c, 'R06.2', 'R06.3'))
+    kinds = ctx.get('chain-kinds', lambda c: r14_2_index_kinds(c, 'R14.2', 'R06.1', 'R14.3'))
+    kw = ctx.get('chain-kw', lambda c: r14_5_keyword_flow(c, 'R14.5'))
+    # (R14.3 - the selection-size clause and the pooled automatic threshold - is a statement about `indices` against the
+    # sub-list and stays with C14)
+    return _of_fns(agg, fns, rule) + _of_fns([o for o in kinds if o.rule != 'R14.3'], fns, rule) + _of_fns(kw, fns, rule)
+
+
+def _class_averages(ctx, rule: str, classes=('PieceWiseConstFunc', 'PieceWiseLinFunc', 'DiscreteFunc')) -> List[Ob]:
+    out: List[Ob] = []
+    for cls in classes:
+        key = ('chain-avrg', cls)
+        obs = ctx.get(key, lambda c, cls=cls: RC.integral_spec(c, cls, 'R10.1') + RC.avrg_spec(c, cls, 'R10.2'))
+        out += [Ob(rule, o.title, o.status, o.where, o.detail, o.key, o.construct, o.extra) for o in obs]
+    return out
+
+
+_CHAIN_TXT = {
+    'plumbing': ("{rid} the plumbing between the public entry points and the kernels (carried from C06 / C14, restricted to the functions "
+                 "reachable from the entry modules): pair enumeration and summation of the generic drivers (also the single-pair branch "
+                 "that serves a two-element list or `indices` naming two trains), position / train-id kinds of every index, and keyword "
+                 "forwarding (MRTS, RI, max_tau, interval reach the pair function as given)."),
+    'aux': "{rid} (=R01.6) a train without spikes is represented by exactly its two edges, every other train by its spikes themselves.",
+    'avrg': ("{rid} (=R10.1/R10.2/R11.2/R11.3) integral and avrg of the function classes are the definition's (sum of the pieces / the "
+             "entries inside the interval, divided by the interval length / the multiplicities): the scalar results are these averages."),
+    'isi_lengths': ("{rid} (=R15.4) isi_lengths / default_thresh are the documented, time-reflection symmetric definition (the automatic "
+                    "threshold enters every measure called with MRTS='auto')."),
+    'ownership': ("{rid} (=R09.2) constructors and copy() of the function classes own their arrays: an operation on a copy cannot change "
+                  "what integral / avrg / evaluation of the original return."),
+}
+_CHAINS = {
+    'C01': [('R01.11', 'plumbing', lambda c: _plumbing(c, ('pyspike.isi_distance',), 'R01.11'))],
+    'C02': [('R02.11', 'plumbing', lambda c: _plumbing(c, ('pyspike.spike_distance',), 'R02.11')),
+            ('R02.12', 'aux', lambda c: _nonempty_aux(c, 'R02.12'))],
+    'C03': [('R03.10', 'plumbing', lambda c: _plumbing(c, ('pyspike.spike_sync',), 'R03.10'))],
+    'C04': [('R04.10', 'plumbing', lambda c: _plumbing(c, ('pyspike.spike_directionality',), 'R04.10'))],
+    'C06': [('R06.11', 'plumbing', lambda c: _plumbing(c, ('pyspike.isi_distance', 'pyspike.spike_distance', 'pyspike.spike_sync'), 'R06.11'))],
+    'C07': [('R07.10', 'avrg', lambda c: _class_averages(c, 'R07.10'))],
+    'C08': [('R08.7', 'isi_lengths', lambda c: [Ob('R08.7', o.title, o.status, o.where, o.detail, o.key, o.construct, o.extra)
+                                                 for o in RM.r15_4_threshold_definition(c, 'R15.4', 'R08.2') if o.rule == 'R15.4']),
+            ('R08.8', 'aux', lambda c: _nonempty_aux(c, 'R08.8'))],
+    'C10': [('R10.7', 'ownership', lambda c: r09_2_ownership(c, 'R10.7', {'PieceWiseConstFunc', 'PieceWiseLinFunc'}))],
+    'C12': [('R12.8', 'avrg', lambda c: _class_averages(c, 'R12.8'))],
+}
+for _pid, _items in _CHAINS.items():
+    for _rid, _kind, _fn_ in _items:
+        PROPS[_pid]['rules'] = list(PROPS[_pid]['rules']) + [_fn_]
+        PROPS[_pid]['explanation'] += ' ' + _CHAIN_TXT[_kind].format(rid=_rid)
